@@ -10,8 +10,9 @@ def replay_one(chk, rp, replay):
 def run_file_check(chk, cfgs, sims=(), opts=None, judge=None, workers=12, replay=None, coverage=()):
     """cfgs: BFS configurations (names after MC_NixFile_); sims: (cfg, num, depth) simulation runs."""
     binary = vcheck.ensure_build('plain')
-    # ballast (thorough tier only: it triples the run time): 9 extra members per owning container in one line of six
-    o = {'names': chk.seed, 'ballast': -1 if chk.thorough else 0}
+    # ballast (9 extra members per owning container in one line of six) triples the run time and is off unless VERIF_BALLAST=1
+    import os as _os
+    o = {'names': chk.seed, 'ballast': -1 if _os.environ.get('VERIF_BALLAST') == '1' else 0}
     o.update(opts or {})
     rp = vcheck.Replayer(binary, seed=chk.seed, opts=o, chunk=300, timeout_per_line=30)
     if replay is not None:
@@ -58,7 +59,7 @@ def run_file_check(chk, cfgs, sims=(), opts=None, judge=None, workers=12, replay
     chk.exhaustive = exhaustive and not sims
     chk.traces_validated = len(chk.distinct)
     chk.extra['name_dictionary'] = chk.seed % 6
-    chk.extra['ballast'] = 'none (quick tier)' if not chk.thorough else 'one line in six: 9 extra members in every owning container of the file, of blocks, sections and sources (past the compact-storage threshold of 8 links)'
+    chk.extra['ballast'] = 'none' if o['ballast'] == 0 else 'one line in six: 9 extra members in every owning container of the file, of blocks, sections and sources (past the compact-storage threshold of 8 links)'
     chk.assumptions += ['abstract names / types / attribute stamps are concretised through finite dictionaries (6 name dictionaries, chosen by VERIF_SEED)',
                         'trusted: TLC, harness/h_file.cpp (executor + observer), HDF5 1.10']
 
